@@ -24,10 +24,11 @@ LEVEL_TEXT = ("Machine-checked proof (Coq, closed under the global context) over
               "raised exactly when a category has no common entry, and that ext-info-/kex-strict- markers are "
               "never chosen; tied to transport.py by generated tables and a differential direct drive of real "
               "Transport objects every run.")
-LEVEL_NOTE = ("Trusted: Coq kernel + vm_compute; hand-written model coq/Model/C05.v (marker stripping modelled as "
-              "a filter, the to_pop index loop is validated only by the correspondence run); gss_kex=True "
-              "(_preferred_gsskex prepended) and the strict-kex seqno check (C09) are outside the model; host key "
-              "'not disabled' is stated modulo the certificate variants preferred_keys derives.")
+LEVEL_NOTE = ("Trusted: Coq kernel + vm_compute; hand-written model coq/Model/C05.v (the to_pop index loop is modelled "
+              "literally and proved equal to the filter the model uses; its shape and the marker/cert/gex literals are "
+              "re-read from the source by gen/c05.py); gss_kex=True is exercised with a stub GSSAuth (no GSS library "
+              "here); the strict-kex seqno check (C09) is outside the model; host key 'not disabled' is stated modulo "
+              "the certificate variants preferred_keys derives.")
 TECHNIQUE = "Coq proof (list filtering lemmas, case analysis of _parse_kex_init) + vm_compute differential direct drive"
 GENS = ["c05"]
 
@@ -54,9 +55,14 @@ def setup(ctx):
         return _state
     import importlib.util
     gpath = os.path.join(os.path.dirname(os.path.dirname(os.path.abspath(__file__))), "gen", "c05.py")
-    spec = importlib.util.spec_from_file_location("gen_c05_names", gpath)
-    gen = importlib.util.module_from_spec(spec)
-    spec.loader.exec_module(gen)
+    try:
+        spec = importlib.util.spec_from_file_location("gen_c05_names", gpath)
+        gen = importlib.util.module_from_spec(spec)
+        spec.loader.exec_module(gen)
+        name_table = gen.name_table
+    except Exception as e:  # noqa  - the oracle must still run; names are then rendered as byte lists
+        ctx.corr_broken.append("gen/c05.py could not be loaded: %r" % (e,))
+        name_table = None
     import paramiko
     from paramiko import Transport, RSAKey, ECDSAKey, Ed25519Key
     sup = os.path.join(ctx.repo, "tests", "_support")
@@ -68,7 +74,11 @@ def setup(ctx):
         "ecdsa384": ECDSAKey.from_private_key_file(os.path.join(tst, "test_ecdsa_384.key")),
         "ecdsa521": ECDSAKey.from_private_key_file(os.path.join(tst, "test_ecdsa_521.key")),
     }
-    _state["names"] = {n: i for i, n in enumerate(gen.name_table(Transport))}
+    try:
+        _state["names"] = {n: i for i, n in enumerate(name_table(Transport))}
+    except Exception as e:  # noqa
+        ctx.corr_broken.append("gen/c05.py name_table failed: %r" % (e,))
+        _state["names"] = {}
     _state["tables"] = {"kex": sorted(Transport._kex_info), "keys": sorted(Transport._key_info),
                         "ciphers": sorted(Transport._cipher_info), "macs": sorted(Transport._mac_info),
                         "compression": sorted(Transport._compression_info)}
@@ -110,7 +120,7 @@ def cl(names):
 
 def coq_cfg(cfg):
     return "(mkConfig %s %s %s %s %s)" % (
-        " ".join(cl(cfg["prefs"][c]) for c in CATS), " ".join(cl(cfg["disabled"][c]) for c in CATS),
+        " ".join((cfg["kex_raw"] if (c == "kex" and cfg.get("kex_raw")) else cl(cfg["prefs"][c])) for c in CATS), " ".join(cl(cfg["disabled"][c]) for c in CATS),
         cl(cfg["server_keys"]), coq(cfg["moduli"]), coq(cfg["strict"]))
 
 
@@ -178,7 +188,10 @@ def gen_cfg(rng, role, st):
             skeys = rng.sample(names, rng.randrange(1, len(names) + 1))
     # (a server without moduli re-assigns the kex tuple through SecurityOptions, which rejects unknown names)
     moduli = True if (marker_pref and role == "Server") else rng.random() < 0.5
-    return {"prefs": prefs, "disabled": dis, "skeys": skeys, "moduli": moduli, "strict": rng.random() < 0.75}
+    # gss_kex=True: __init__ prepends _preferred_gsskex (only visible while the kex tuple is the default)
+    gss = prefs["kex"] is None and rng.random() < 0.25
+    return {"prefs": prefs, "disabled": dis, "skeys": skeys, "moduli": moduli, "strict": rng.random() < 0.75,
+            "gss": gss}
 
 
 def gen_peer(rng, st, adv, benign=False):
@@ -293,7 +306,17 @@ def make_transport(st, role, cfg):
     a, b = LoopSocket(), LoopSocket()
     a.link(b)
     dis = {c: list(v) for c, v in cfg["disabled"].items() if v}
-    t = st["Recording"](a, disabled_algorithms=dis, strict_kex=cfg["strict"])
+    if cfg.get("gss"):
+        # no GSS-API library here: the context object is a library primitive, stubbed in this process only
+        import paramiko.transport as ptr
+        real = ptr.GSSAuth
+        ptr.GSSAuth = lambda *a_, **k_: object()
+        try:
+            t = st["Recording"](a, disabled_algorithms=dis, strict_kex=cfg["strict"], gss_kex=True)
+        finally:
+            ptr.GSSAuth = real
+    else:
+        t = st["Recording"](a, disabled_algorithms=dis, strict_kex=cfg["strict"])
     t.server_mode = role == "Server"
     so = t.get_security_options()
     for c, attr in (("kex", "kex"), ("keys", "key_types"), ("ciphers", "ciphers"), ("macs", "digests"),
@@ -312,7 +335,8 @@ def make_transport(st, role, cfg):
 
 def model_cfg(t, cfg):
     """The model's config record, read from the transport before _send_kex_init runs."""
-    return {"prefs": {c: list(getattr(t, "_preferred_" + c)) for c in CATS},
+    return {"kex_raw": "(init_kex true)" if (cfg.get("gss") and cfg["prefs"]["kex"] is None) else None,
+            "prefs": {c: list(getattr(t, "_preferred_" + c)) for c in CATS},
             "disabled": {c: list(t.disabled_algorithms.get(c, [])) for c in CATS},
             "server_keys": list(t.server_key_dict.keys()),
             "moduli": t._modulus_pack is not None, "strict": bool(t.advertise_strict_kex)}
@@ -669,6 +693,13 @@ def flush_model(ctx, cases_adv, cases_neg):
         ctx.sample({"negotiate": {"case": cases_neg[7][2], "impl": cases_neg[7][3]}})
 
 
+def safe_flush(ctx, cases_adv, cases_neg):
+    try:
+        flush_model(ctx, cases_adv, cases_neg)
+    except Exception as e:  # noqa  - a model/translator failure must not stop the oracle
+        ctx.corr_broken.append("model evaluation failed: %r" % (str(e)[-600:],))
+
+
 def plain_cfg(skeys=(), moduli=False, strict=True, prefs=None, disabled=None):
     p = {c: None for c in CATS}
     p.update(prefs or {})
@@ -703,6 +734,12 @@ def targeted(ctx, st, cases_adv, cases_neg):
                        "marker-in-prefs", cases_adv, cases_neg)
             run_single(ctx, st, role, plain_cfg(sk, moduli=True, prefs={"kex": kex[:1] + [mk]}),
                        [[kex[-1], mk, kex[0]]] + dflt, "marker-in-prefs", cases_adv, cases_neg)
+        # 2c. gss_kex=True: the gss methods lead the kex tuple; a peer listing them / not listing them
+        gssk = list(Transport._preferred_gsskex)
+        g = dict(plain_cfg(sk, moduli=True), gss=True)
+        run_single(ctx, st, role, g, [kex[::-1] + gssk[::-1]] + dflt, "gss", cases_adv, cases_neg)
+        run_single(ctx, st, role, dict(g, moduli=False), [gssk[1:] + kex] + dflt, "gss", cases_adv, cases_neg)
+        run_single(ctx, st, role, g, [kex] + dflt, "gss", cases_adv, cases_neg)
         # 3. the peer's order differs from ours in every category
         rev = [kex[::-1]] + [l[::-1] for l in dflt]
         run_single(ctx, st, role, plain_cfg(sk), rev, "reversed", cases_adv, cases_neg)
@@ -733,10 +770,14 @@ def run(ctx):
                 "succeeds or the peer lists something")
     ctx.trusted += ["model coq/Model/C05.v is hand-written; tied to paramiko/transport.py by the generated tuples/"
                     "tables (gen/c05.py) and this differential direct drive (vm_compute, no extraction)",
-                    "gss_kex=True and the strict-kex seqno check are outside the model (cases use m.seqno = 0)"]
+                    "gss_kex=True transports are built with a stub GSSAuth context; the strict-kex seqno check is outside "
+                    "the model (cases use m.seqno = 0)"]
     ctx.assumptions += ["_negotiate_keys always runs _send_kex_init before _parse_kex_init (read, and exercised by "
                         "the handshakes)"]
-    ctx.prove(GENS)
+    try:
+        ctx.prove(GENS)
+    except Exception as e:  # noqa  - the implementation-level oracle below must run regardless
+        ctx.corr_broken.append("proof/translator step raised: %r" % (e,))
     if len([1 for v in st["cls2name"].values() if len(v) != 1]):
         ctx.notes.append("some kex classes serve several names; kex observable compared by class for those")
     cases_adv, cases_neg = [], []
@@ -764,7 +805,7 @@ def run(ctx):
                              case={"role": role, "category": CAT8[i], "reached": reached})
     for _ in range(100 * scale):
         run_pair(ctx, st, gen_cfg(rng, "Client", st), gen_cfg(rng, "Server", st), cases_adv, cases_neg)
-    flush_model(ctx, cases_adv, cases_neg)
+    safe_flush(ctx, cases_adv, cases_neg)
     # real handshakes: the targeted group-exchange pair, then random disabled_algorithms on both sides
     from paramiko import Transport
     kex = list(Transport._preferred_kex)
@@ -787,4 +828,4 @@ def replay(ctx, rep):
     else:
         run_single(ctx, st, case["role"], case["cfg"], case["peer"], "replay", cases_adv, cases_neg)
         ctx.count(("replay", repr(case)))
-    flush_model(ctx, cases_adv, cases_neg)
+    safe_flush(ctx, cases_adv, cases_neg)
